@@ -41,6 +41,7 @@ type adaptive struct {
 	vars   []string
 	nvar   int
 	failed bool
+	nested bool
 	feat   map[string]bool
 }
 
@@ -216,7 +217,16 @@ func (g *adaptive) step() bool {
 	if n > 30 {
 		return g.emit(psref.TX("pop"))
 	}
-	switch g.draw(22, "action") {
+	switch g.draw(23, "action") {
+	case 22:
+		// dictionary enumerations inside dictionary enumerations (bodies
+		// whose effect does not depend on the order)
+		if g.nested {
+			return g.emit(g.genSimple())
+		}
+		g.nested = true
+		g.feat["nested-dict-forall"] = true
+		return g.emit(NestedForall(g.draw)...)
 	case 0, 1: // push a simple literal
 		return g.emit(g.genSimple())
 	case 2:
